@@ -64,6 +64,10 @@ def iE : Expr → List Item
   | .movie v => [kwI "the", .sp, .tk (.id v)]
   | .the .sys k [] => [kwI "the", .sp, .tk (.id (nameOrUnknown tblSys k))]
   | .the .special k [] => [kwI "the", .sp, .tk (.id (nameOrUnknown tblSpecial k))]
+  | .the t k [e] =>
+    (match theTbl t with
+     | some (_, tb, w) => [kwI "the", .sp, .tk (.id (nameOrUnknown tb k)), .sp, kwI "of", .sp, kwI w, .sp] ++ iE e
+     | none => [])
   | _ => []
 def iArgs : List Expr → List Item
   | [] => []
@@ -115,12 +119,52 @@ theorem sys_idOk (k : Nat) (h : tblSys.any (fun x => x.1 == k) = true) : idOk (n
   rw [hk'] at this
   exact this
 
+theorem tbl_idOk (tb : List (Nat × String)) (hall : tb.all (fun x => idOk (nameOrUnknown tb x.1)) = true) (k : Nat)
+    (h : tb.any (fun x => x.1 == k) = true) : idOk (nameOrUnknown tb k) = true := by
+  rw [List.any_eq_true] at h
+  obtain ⟨x, hx, hk⟩ := h
+  have hk' : x.1 = k := by simpa using hk
+  have := List.all_eq_true.mp hall x hx
+  rw [hk'] at this
+  exact this
+
+theorem obj_idOk (t : Tbl) (cls : Lscr.Leaf) (tb : List (Nat × String)) (w : String) (ht : theTbl t = some (cls, tb, w)) (k : Nat)
+    (h : tb.any (fun x => x.1 == k) = true) : idOk (nameOrUnknown tb k) = true ∧ ItemOk (kwI w) = true := by
+  cases t <;> simp [theTbl] at ht <;>
+  · obtain ⟨_, rfl, rfl⟩ := ht
+    exact ⟨tbl_idOk _ (by decide +kernel) k h, by decide⟩
+
 theorem special_idOk (k : Nat) (h : k < 6) : idOk (nameOrUnknown tblSpecial k) = true := by
   have : k = 0 ∨ k = 1 ∨ k = 2 ∨ k = 3 ∨ k = 4 ∨ k = 5 := by omega
   rcases this with rfl | rfl | rfl | rfl | rfl | rfl <;> decide +kernel
 
 theorem render_the (x : Spec.Name) : render [kwI "the", .sp, .tk (.id x)] = S "the " ++ x := by
   simp [render, Item.text, kwI, S]
+
+theorem render_nil : render [] = [] := rfl
+
+theorem chain_cons_safe (it : Item) (l : List Item) (rest : List Char) (hi : ItemOk it = true) (hs : SafeHd (render l ++ rest)) :
+    Chain (it :: l) rest = Chain l rest := by
+  simp only [Chain, okNext_safeHd it _ hi hs, Bool.true_and]
+
+theorem chain_sp (l : List Item) (rest : List Char) : Chain (.sp :: l) rest = Chain l rest := by simp [Chain, okNext]
+theorem chain_nl (l : List Item) (rest : List Char) : Chain (.tk .nl :: l) rest = Chain l rest := by simp [Chain, okNext]
+
+
+/-- an item other than a string / float token whose follower starts with a blank / newline / comma -/
+theorem chain_cons_sp (it : Item) (l : List Item) (rest : List Char) (hi : ItemOk it = true) :
+    Chain (it :: .sp :: l) rest = Chain l rest := by
+  rw [chain_cons_safe it _ rest hi ⟨' ', _, rfl, safe_sp⟩, chain_sp]
+
+theorem chain_cons_nl (it : Item) (l : List Item) (rest : List Char) (hi : ItemOk it = true) :
+    Chain (it :: .tk .nl :: l) rest = Chain l rest := by
+  rw [chain_cons_safe it _ rest hi ⟨'\n', _, rfl, safe_nl⟩, chain_nl]
+
+theorem chain_cons_comma_sp (it : Item) (l : List Item) (rest : List Char) (hi : ItemOk it = true) :
+    Chain (it :: .tk (.p .comma) :: .sp :: l) rest = Chain l rest := by
+  rw [chain_cons_safe it _ rest hi ⟨',', render (.sp :: l) ++ rest, by simp [render, Item.text, P.text], safe_comma⟩]
+  exact chain_cons_sp _ _ _ (by decide)
+
 
 theorem chain_the (x : Spec.Name) (hid : idOk x = true) (rest : List Char) (h : SafeHd rest) :
     Chain [kwI "the", .sp, .tk (.id x)] rest = true := by
@@ -164,7 +208,14 @@ theorem render_iE : ∀ (e : Expr), FragE e = true → render (iE e) = mE e
   | .plist _, hf => by simp [FragE] at hf
   | .the t k as, hf => by
     cases as with
-    | cons x xs => cases t <;> simp [FragE] at hf
+    | cons x xs =>
+      cases xs with
+      | cons y ys => cases t <;> simp [FragE] at hf
+      | nil =>
+        simp only [FragE, Bool.and_eq_true] at hf
+        have ih := render_iE x hf.2
+        cases t <;> simp [theTbl] at hf <;>
+          simp [iE, mE, theTbl, render_append, render_cons, ih, Item.text, kwI, S, render_nil]
     | nil => cases t <;> first | (simp [FragE] at hf; done) | (simp only [iE, mE]; exact render_the _)
   | .key v, _ => by simp only [iE, mE]; exact render_the _
   | .movie v, _ => by simp only [iE, mE]; exact render_the _
@@ -217,7 +268,14 @@ theorem itoks_iE : ∀ (e : Expr), FragE e = true → itoks (iE e) = prE e
   | .plist _, hf => by simp [FragE] at hf
   | .the t k as, hf => by
     cases as with
-    | cons x xs => cases t <;> simp [FragE] at hf
+    | cons x xs =>
+      cases xs with
+      | cons y ys => cases t <;> simp [FragE] at hf
+      | nil =>
+        simp only [FragE, Bool.and_eq_true] at hf
+        have ih := itoks_iE x hf.2
+        cases t <;> simp [theTbl] at hf <;>
+          simp [iE, theTbl, itoks, itoks_append, ih, prE, prThe, kwI, kw]
     | nil =>
       cases t with
       | sys => simp [iE, itoks, prE, prThe, kwI, kw]
@@ -263,7 +321,10 @@ theorem mE_ne_nil : ∀ (e : Expr), FragE e = true → mE e ≠ []
   | .plist _, hf => by simp [FragE] at hf
   | .the t k as, hf => by
     cases as with
-    | cons x xs => cases t <;> simp [FragE] at hf
+    | cons x xs =>
+      cases xs with
+      | cons y ys => cases t <;> simp [FragE] at hf
+      | nil => cases t <;> first | (simp [FragE, theTbl] at hf; done) | simp [mE, theTbl, S]
     | nil => cases t <;> first | (simp [FragE] at hf; done) | simp [mE, S]
   | .key _, _ => by simp [mE, S]
   | .movie _, _ => by simp [mE, S]
@@ -368,7 +429,23 @@ theorem chain_iE : ∀ (e : Expr), FragE e = true → ∀ (rest : List Char), Sa
   | .plist _, hf, _, _ => by simp [FragE] at hf
   | .the t k as, hf, rest, h => by
     cases as with
-    | cons x xs => cases t <;> simp [FragE] at hf
+    | cons x xs =>
+      cases xs with
+      | cons y ys => cases t <;> simp [FragE] at hf
+      | nil =>
+        simp only [FragE, Bool.and_eq_true] at hf
+        obtain ⟨⟨htk, _⟩, hfe⟩ := hf
+        cases ht : theTbl t with
+        | none => rw [ht] at htk; simp at htk
+        | some v =>
+          obtain ⟨cls, tb, w⟩ := v
+          rw [ht] at htk
+          simp only at htk
+          obtain ⟨h1, h2⟩ := obj_idOk t cls tb w ht k htk
+          have ih := chain_iE x hfe rest h
+          simp only [iE, ht, List.cons_append, List.nil_append]
+          rw [chain_cons_sp _ _ _ (by decide), chain_cons_sp _ _ _ (by simpa [ItemOk] using h1), chain_cons_sp _ _ _ (by decide),
+            chain_cons_sp _ _ _ h2, ih]
     | nil =>
       cases t with
       | sys => simp only [FragE] at hf; simp only [iE]; exact chain_the _ (sys_idOk k hf) rest h
@@ -394,15 +471,6 @@ theorem chain_iArgs : ∀ (as : List Expr), FragL as = true → ∀ (rest : List
 end
 
 /-! ### statements, handlers, scripts -/
-
-theorem render_nil : render [] = [] := rfl
-
-theorem chain_cons_safe (it : Item) (l : List Item) (rest : List Char) (hi : ItemOk it = true) (hs : SafeHd (render l ++ rest)) :
-    Chain (it :: l) rest = Chain l rest := by
-  simp only [Chain, okNext_safeHd it _ hi hs, Bool.true_and]
-
-theorem chain_sp (l : List Item) (rest : List Char) : Chain (.sp :: l) rest = Chain l rest := by simp [Chain, okNext]
-theorem chain_nl (l : List Item) (rest : List Char) : Chain (.tk .nl :: l) rest = Chain l rest := by simp [Chain, okNext]
 
 theorem rep_add {α : Type} (a b : Nat) (x : α) : List.replicate (a + b) x = List.replicate a x ++ List.replicate b x := by
   induction a with
@@ -439,20 +507,6 @@ theorem chain_indent (ind : Nat) (l : List Item) (rest : List Char) : Chain (iIn
   induction 4 * ind with
   | zero => rfl
   | succ n ih => simp [List.replicate_succ, chain_sp, ih]
-
-/-- an item other than a string / float token whose follower starts with a blank / newline / comma -/
-theorem chain_cons_sp (it : Item) (l : List Item) (rest : List Char) (hi : ItemOk it = true) :
-    Chain (it :: .sp :: l) rest = Chain l rest := by
-  rw [chain_cons_safe it _ rest hi ⟨' ', _, rfl, safe_sp⟩, chain_sp]
-
-theorem chain_cons_nl (it : Item) (l : List Item) (rest : List Char) (hi : ItemOk it = true) :
-    Chain (it :: .tk .nl :: l) rest = Chain l rest := by
-  rw [chain_cons_safe it _ rest hi ⟨'\n', _, rfl, safe_nl⟩, chain_nl]
-
-theorem chain_cons_comma_sp (it : Item) (l : List Item) (rest : List Char) (hi : ItemOk it = true) :
-    Chain (it :: .tk (.p .comma) :: .sp :: l) rest = Chain l rest := by
-  rw [chain_cons_safe it _ rest hi ⟨',', render (.sp :: l) ++ rest, by simp [render, Item.text, P.text], safe_comma⟩]
-  exact chain_cons_sp _ _ _ (by decide)
 
 mutual
 def iS : Nat → Stmt → List Item
@@ -611,7 +665,10 @@ theorem mE_not_lp (e : Expr) (hf : FragE e = true) (hn : notInfix e = true) : st
   | movie v => simp [mE, startsWith, S, List.isPrefixOf]
   | the t k as =>
     cases as with
-    | cons x xs => cases t <;> simp [FragE] at hf
+    | cons x xs =>
+      cases xs with
+      | cons y ys => cases t <;> simp [FragE] at hf
+      | nil => cases t <;> first | (simp [FragE, theTbl] at hf; done) | simp [mE, theTbl, startsWith, S, List.isPrefixOf]
     | nil => cases t <;> first | (simp [FragE] at hf; done) | simp [mE, startsWith, S, List.isPrefixOf]
   | _ => simp [FragE] at hf
 
